@@ -84,7 +84,7 @@ func TestC09Generated(t *testing.T) {
 	checkRegressions(t, id)
 	ev.Rule(id, "(a) real-world corpora that load offline (standard library packages; thorough: all of std plus the repository's dependencies in the module cache) after an independent precondition filter (go/parser scan: no comment line matching ^//\\s*@(implements|constructor|immutable|testonly|mutable|packageonly|ignore)\\b), run through the real binary under {default, scan-tests, empty exclude-paths}; (b) rapid-generated multi-package programs with every site family and NO annotation, salted with near-miss comments (keyword mid-sentence, other letter case, keyword as prefix of a longer word, blank after @, block comments, @constructor without names, well-formed annotation lines at inert attachment sites: trailing comments, comments detached by a blank line, local declarations, package-level var docs, struct fields of unannotated types, annotations that mean nothing on a function) under random configurations. oracle = zero diagnostics from every analyzer. non-trivial = package/program with >=1 field write, >=1 composite literal and >=1 method call, and for (b) >=1 near-miss comment; distinct by import path / source hash")
 	rapid.Check(t, func(rt *rapid.T) {
-		p := proggen.Gen(rt, proggen.GenOpts{Focus: "none", MinPkgs: 1, MaxPkgs: 3, TestFiles: true, Aliases: true})
+		p := proggen.Gen(rt, proggen.GenOpts{Focus: "none", MinPkgs: 1, MaxPkgs: 3, TestFiles: true, XTest: true, Aliases: true})
 		info := proggen.SaltNearMiss(rt, p)
 		p.Render()
 		cfg := c09Configs(rt)
